@@ -12,7 +12,7 @@ def run(ctx):
     cases, bad = tc.run_stream(ctx, "tensor-all-eigen", g.ALL_OPS, n, backend="eigen",
                                exhaustive_ops=("sum_fw", "max_fw", "flip_fw", "argmax", "max_bw", "flip_bw"))
     cases2, bad2 = tc.run_stream(ctx, "tensor-all-naive", g.ALL_OPS, n // 2, backend="naive")
-    summ = tc.optional_part(ctx, "progcheck", "run_mode", "backend", 150 if ctx.quick() else 3000)
+    summ = tc.optional_part(ctx, "progcheck", "run_mode", "backend", 3000 if ctx.quick() else 40000)
     if summ is not None:
         ctx.cov["program_level"] = summ
     ctx.cov["programs"] = len(cases) + len(cases2)
